@@ -36,11 +36,29 @@ const (
 	allowedExtCSVGZ = ".csv.gz"
 )
 
+// A lookup file name comes from the client and is joined to the lookups
+// directory; it must name a file in that directory and nothing else.
+func isValidLookupFileName(fileName string) bool {
+	if fileName == "" || fileName == "." || fileName == ".." {
+		return false
+	}
+	if strings.ContainsAny(fileName, "/\\\x00") {
+		return false
+	}
+	return filepath.Base(fileName) == fileName
+}
+
 func UploadLookupFile(ctx *fasthttp.RequestCtx) {
 	fileName := string(ctx.FormValue("name"))
 	if fileName == "" {
 		log.Error("UploadLookupFile: File name is required")
 		ctx.Error("File name is required", fasthttp.StatusBadRequest)
+		return
+	}
+
+	if !isValidLookupFileName(fileName) {
+		log.Errorf("UploadLookupFile: Invalid file name: %q", fileName)
+		ctx.Error("Invalid file name", fasthttp.StatusBadRequest)
 		return
 	}
 
@@ -167,6 +185,10 @@ func GetAllLookupFiles(ctx *fasthttp.RequestCtx) {
 
 func GetLookupFile(ctx *fasthttp.RequestCtx) {
 	lookupFilename := utils.ExtractParamAsString(ctx.UserValue("lookupFilename"))
+	if !isValidLookupFileName(lookupFilename) {
+		ctx.Error("Invalid file name", fasthttp.StatusBadRequest)
+		return
+	}
 
 	lookupsDir := config.GetLookupPath()
 	filePath := filepath.Join(lookupsDir, lookupFilename)
@@ -195,6 +217,10 @@ func GetLookupFile(ctx *fasthttp.RequestCtx) {
 
 func DeleteLookupFile(ctx *fasthttp.RequestCtx) {
 	lookupFilename := utils.ExtractParamAsString(ctx.UserValue("lookupFilename"))
+	if !isValidLookupFileName(lookupFilename) {
+		ctx.Error("Invalid file name", fasthttp.StatusBadRequest)
+		return
+	}
 
 	lookupsDir := config.GetLookupPath()
 	filePath := filepath.Join(lookupsDir, lookupFilename)
